@@ -1,4 +1,5 @@
 from datetime import datetime
+import operator
 try:
     from functools import lru_cache
 except ImportError:  # pragma: no cover
@@ -281,11 +282,40 @@ def _get_path(grid, obj, paths):
         return NOT_FOUND
 
 
+_COMPARATORS = {
+    '==': operator.eq, '!=': operator.ne,
+    '<': operator.lt, '<=': operator.le,
+    '>': operator.gt, '>=': operator.ge,
+}
+
+
+def _compare(left, op, right):
+    if left is NOT_FOUND:
+        return False
+    for kind in (Uri, Bin):
+        # A Uri or Bin only compares with its own kind, not with any string
+        if isinstance(left, kind) != isinstance(right, kind):
+            return False
+    try:
+        return bool(_COMPARATORS[op](left, right))
+    except TypeError:
+        # Incomparable: str < number, a Marker, quantities in other units...
+        return False
+
+
 def _generate_filter_in_python(node, def_filter, consts=None):
     if consts is None:
         consts = []
     if isinstance(node, FilterPath):
         def_filter.append("_get_path(_grid, _entity, %s)" % node.path)
+    elif isinstance(node, FilterBinary) and (node.op in _COMPARATORS):
+        # A comparison on an absent tag or between incomparable values is
+        # false, it must not raise.
+        def_filter.append("_compare(")
+        def_filter.extend(_generate_filter_in_python(node.left, [], consts))
+        def_filter.append(", %r, " % node.op)
+        def_filter.extend(_generate_filter_in_python(node.right, [], consts))
+        def_filter.append(")")
     elif isinstance(node, FilterBinary):
         def_filter.append("(")
         def_filter.extend(_generate_filter_in_python(node.left, [], consts))
